@@ -201,6 +201,8 @@ fn macro_ctx() -> Minimal {
     ctx.register_resource("t:two", "helmert x=$x | helmert x=$b inv");
     ctx.register_resource("t:nest", "t:x x=$b | helmert x=100");
     ctx.register_resource("t:three", "addone | helmert x=$x | addone inv omit_fwd");
+    // argument names that merely START with / contain a modifier word must stay plain arguments
+    ctx.register_resource("t:iv", "helmert x=$invx | helmert x=$omit_fwdx inv");
     ctx
 }
 
@@ -235,7 +237,7 @@ fn verif_native_c04_macro_expansion() {
     assert!(fails.is_empty(), "C04.N.macro.expansion: FAILSET{{{}}} {} of {} comparisons disagree, first: {:?}", ids.join(","), fails.len(), n, &fails[..fails.len().min(3)]);
 }
 
-//@n {"id":"C03.N.macro.modifiers","props":["C03","C04"],"tier":"quick","bound":"a two-step macro t:two invoked as a pipeline step with inv / omit_fwd / omit_inv in prefix and suffix position (8 invocations); the equivalent literal is the nested pipeline built by hand; through Minimal; both directions","text":"a macro step carrying inv anywhere in its definition behaves as that step with the two directions exchanged; omit_fwd / omit_inv on a macro step skip the WHOLE macro in that direction and affect no inner step (modifiers of one step never affect any other step)"}
+//@n {"id":"C03.N.macro.modifiers","props":["C03","C04"],"tier":"quick","bound":"a two-step macro t:two invoked as a pipeline step with inv / omit_fwd / omit_inv in prefix and suffix position (8 invocations), plus a macro whose argument NAMES start with the modifier words (invx=, omit_fwdx=; 3 invocations); the equivalent literal is the nested pipeline built by hand; through Minimal; both directions","text":"a macro step carrying inv anywhere in its definition behaves as that step with the two directions exchanged; omit_fwd / omit_inv on a macro step skip the WHOLE macro in that direction and affect no inner step (modifiers of one step never affect any other step)"}
 #[test]
 fn verif_native_c03_macro_modifiers() {
     let mut ctx = macro_ctx();
@@ -243,7 +245,7 @@ fn verif_native_c03_macro_modifiers() {
     let mut n = 0;
     // expected values computed from the statement: t:two x=3 b=4 forward adds 3-4 = -1, inverse adds +1
     let expect = |fwd_delta: f64, inv_delta: f64| [(Direction::Fwd, fwd_delta), (Direction::Inv, inv_delta)];
-    let cases: [(&str, [(Direction, f64); 2]); 8] = [
+    let cases: [(&str, [(Direction, f64); 2]); 11] = [
         ("addone | t:two x=3 b=4", expect(1.0 - 1.0, -1.0 + 1.0)),
         ("addone | t:two x=3 b=4 inv", expect(1.0 + 1.0, -1.0 - 1.0)),
         ("addone | inv t:two x=3 b=4", expect(1.0 + 1.0, -1.0 - 1.0)),
@@ -252,6 +254,9 @@ fn verif_native_c03_macro_modifiers() {
         ("addone | t:two x=3 b=4 omit_inv", expect(1.0 - 1.0, -1.0)),
         ("addone | omit_fwd t:two x=3 b=4", expect(1.0, -1.0 + 1.0)),
         ("addone | t:two x=3 b=4 inv omit_fwd", expect(1.0, -1.0 - 1.0)),
+        ("addone | t:iv invx=3 omit_fwdx=4", expect(1.0 - 1.0, -1.0 + 1.0)),
+        ("addone | t:iv omit_fwdx=4 invx=3", expect(1.0 - 1.0, -1.0 + 1.0)),
+        ("addone | t:iv invx=3 omit_fwdx=4 inv", expect(1.0 + 1.0, -1.0 - 1.0)),
     ];
     let mut ids = Vec::new();
     for (i, (def, exp)) in cases.into_iter().enumerate() {
